@@ -239,6 +239,16 @@ func (p *Parser) peekPrecedence() int {
 	return result
 }
 
+func (p *Parser) curPrecedence() int {
+	result, ok := precedences[p.curToken.Type]
+
+	if !ok {
+		return LOWEST
+	}
+
+	return result
+}
+
 func (p *Parser) expectPeek(tok token.TokenType) bool {
 	if p.peekTokenIs(tok) {
 		p.nextToken()
@@ -762,6 +772,8 @@ func (p *Parser) parseInfixExp(left ast.Expression) ast.Expression {
 		Left:     left,
 	}
 
+	precedence := p.curPrecedence()
+
 	p.nextToken() // skip operator
 
 	if p.curTokenIs(token.RBRACES) {
@@ -769,7 +781,7 @@ func (p *Parser) parseInfixExp(left ast.Expression) ast.Expression {
 		return nil
 	}
 
-	exp.Right = p.parseExpression(SUM)
+	exp.Right = p.parseExpression(precedence)
 
 	return exp
 }
